@@ -426,6 +426,7 @@ func c03(c *Ctx) {
 		c.Check(good, "R2", "propagation|TraceContext.extract|fields version(2) trace-id(32) parent-id(16) flags(2) in order", at(px.M, fn.Pos()), strings.Join(dsts, ","), "traceparent field order/widths differ from the W3C format")
 	}
 
+	defer c03Carriers(c, px)
 	c.Rule("R3", "E5 immutability (alias tracking)", "no method of TraceState writes through the receiver's list: element stores, append and copy destinations are rooted at fresh allocations", 4)
 	ruleTraceStateImmutable(c, tx, "R3")
 
@@ -695,6 +696,56 @@ func c03(c *Ctx) {
 			})
 		}
 		c.Check(good && fmtOK, "R5", "propagation|versionPart|= \"00\"", at(px.M, px.Pkg.Syntax[0].Pos()), "two hex digits of version 0", "the injected version field is not 00")
+	}
+}
+
+// c03Carriers (R6): the stock carriers' Set replaces the value for a key and Get reads it back (a Set that appends breaks Inject→Extract on a re-used carrier).
+func c03Carriers(c *Ctx, px *PkgIndex) {
+	info := px.Pkg.TypesInfo
+	c.Rule("R6", "E4 callee identity", "stock carriers: Set replaces the value stored for a key (http.Header.Set / map assignment), Get reads that value", 4)
+	callsOnly := func(fname, want string) {
+		fn := c.Fn(px, "R6", fname)
+		if fn == nil {
+			return
+		}
+		var got []string
+		inspectNoLit(fn.Body(), func(n ast.Node) bool {
+			if call, ok := n.(*ast.CallExpr); ok {
+				if cf := callee(info, call); cf != nil {
+					got = append(got, cf.FullName())
+				}
+			}
+			return true
+		})
+		c.Check(len(got) == 1 && got[0] == want, "R6", "propagation|"+fname+"|delegates to "+want, at(px.M, fn.Pos()), "replace / first-value semantics", fname+" calls "+strings.Join(got, ",")+" instead of "+want+": a header injected into a carrier that already holds one is appended, and Extract reads the stale first value")
+	}
+	callsOnly("HeaderCarrier.Set", "(net/http.Header).Set")
+	callsOnly("HeaderCarrier.Get", "(net/http.Header).Get")
+	if fn := c.Fn(px, "R6", "MapCarrier.Set"); fn != nil {
+		sig := fn.Obj.Type().(*types.Signature)
+		good := false
+		inspectNoLit(fn.Body(), func(n ast.Node) bool {
+			if as, ok := n.(*ast.AssignStmt); ok && len(as.Lhs) == 1 && len(as.Rhs) == 1 && as.Tok == token.ASSIGN {
+				if ie, ok := unparen(as.Lhs[0]).(*ast.IndexExpr); ok && sameVar(info, ie.X, sig.Recv()) && sameVar(info, ie.Index, sig.Params().At(0)) && sameVar(info, as.Rhs[0], sig.Params().At(1)) {
+					good = true
+				}
+			}
+			return true
+		})
+		c.Check(good, "R6", "propagation|MapCarrier.Set|c[key] = value", at(px.M, fn.Pos()), "replace semantics", "MapCarrier.Set does not store the value under its key")
+	}
+	if fn := c.Fn(px, "R6", "MapCarrier.Get"); fn != nil {
+		sig := fn.Obj.Type().(*types.Signature)
+		good := false
+		inspectNoLit(fn.Body(), func(n ast.Node) bool {
+			if rs, ok := n.(*ast.ReturnStmt); ok && len(rs.Results) == 1 {
+				if ie, ok := unparen(rs.Results[0]).(*ast.IndexExpr); ok && sameVar(info, ie.X, sig.Recv()) && sameVar(info, ie.Index, sig.Params().At(0)) {
+					good = true
+				}
+			}
+			return true
+		})
+		c.Check(good, "R6", "propagation|MapCarrier.Get|returns c[key]", at(px.M, fn.Pos()), "reads what Set stored", "MapCarrier.Get does not read the value stored under its key")
 	}
 }
 
